@@ -219,7 +219,7 @@ func (r *Run) Finish(level string, rule string) {
 		sort.Strings(keys)
 		oc := map[string]int{}
 		for i, k := range keys {
-			if i < 40 {
+			if i < 100 {
 				oc[k] = r.outcomes[k]
 			}
 		}
